@@ -47,6 +47,9 @@ pub struct CaseResult
     pub harness_errors: Vec<String>,
     pub bound_completed: Option<usize>,
     pub per_bound: Vec<(usize, u64)>,
+    /// distinct crash states (crash engine): key -> snapshot
+    pub snaps: std::collections::HashMap<[u8; 16], crate::memsys::Snap>,
+    pub snaps_seen: u64,
     pub cap_hit: bool,
     pub commands: u64,
 }
@@ -144,6 +147,7 @@ pub fn c03_monitor(rules: &RuleSet, fs: &Fs) -> CmdMonitor
 
 struct ExecResult
 {
+    snaps: Vec<crate::memsys::Snap>,
     outcome_key: String,
     end_key: [u8; 16],
     findings: Vec<Finding>,
@@ -161,6 +165,8 @@ struct Queue
 
 pub struct ExploreCfg
 {
+    /// take a file-system snapshot after every mutation (crash engine)
+    pub snapshots: bool,
     /// dynamic partial-order reduction (unbounded) instead of plain enumeration
     pub por: bool,
     /// preemption bound (None = unbounded)
@@ -222,7 +228,9 @@ fn run_case_op(case: &SchedCase, prep: &State, rc: &RunCfg, or: &Oracles, c04_hi
         }
     }
     let outcome_key = format!("{:?} | {:?}", rr.verdict, workspace_view(&rr.fs));
-    ExecResult { outcome_key, end_key: canon_key(&rr.fs, &[]), findings, harness_errors, commands: rr.log.cmds.len() as u64 }
+    let mut rr = rr;
+    let snaps = std::mem::take(&mut rr.log.snaps);
+    ExecResult { snaps, outcome_key, end_key: canon_key(&rr.fs, &[]), findings, harness_errors, commands: rr.log.cmds.len() as u64 }
 }
 
 /// C04: nothing is recorded for a failed execution
@@ -262,7 +270,7 @@ pub fn explore(case: &SchedCase, prep: &State, cfg: &ExploreCfg) -> CaseResult
         clock: ClockModel::Strict,
         yields: true,
         shared: Arc::new(BTreeSet::new()),
-        snapshots: false,
+        snapshots: cfg.snapshots,
         track_access: false,
         monitor,
     };
@@ -317,6 +325,12 @@ pub fn explore(case: &SchedCase, prep: &State, cfg: &ExploreCfg) -> CaseResult
                                 e.0 += 1;
                                 loc.end_states.insert(res.end_key);
                                 loc.commands += res.commands;
+                                for sn in res.snaps
+                                {
+                                    loc.snaps_seen += 1;
+                                    let k = canon_key(&sn.fs, &[sn.in_cmd as u8, sn.torn.is_some() as u8]);
+                                    loc.snaps.entry(k).or_insert(sn);
+                                }
                                 for f in res.findings
                                 {
                                     if loc.findings.len() < 200 { loc.findings.push((o.trace.choices.clone(), f)); }
@@ -423,6 +437,8 @@ pub fn explore(case: &SchedCase, prep: &State, cfg: &ExploreCfg) -> CaseResult
                 e.0 += n;
             }
             r.end_states.extend(local.end_states);
+            r.snaps_seen += local.snaps_seen;
+            for (k, v) in local.snaps { r.snaps.entry(k).or_insert(v); }
             r.findings.extend(local.findings);
             r.failures.extend(local.failures);
             r.harness_errors.extend(local.harness_errors);
